@@ -44,6 +44,24 @@ pub fn subs() -> Vec<Box<dyn AnySub>> {
             check: check_reqs,
         }),
         Box::new(Sub {
+            name: "required-headers-are-bound",
+            quick: 30_000,
+            thorough: 400_000,
+            strat: || {
+                let o = PlanOpts {
+                    logical: LogicalOpts { max_segments: 1, max_query: 1, max_headers: 5, body_class: 0, raw_segments: false },
+                    rich_reqs: true,
+                    allow_s3: false,
+                    allow_fold: false,
+                    form_bodies: false,
+                    plain_spelling: true,
+                    ..PlanOpts::default()
+                };
+                (plan(o), proptest::collection::vec(prop_oneof![2 => Just(0u8), 1 => 1u8..8], 8), any::<bool>()).prop_map(|(plan, entry_case, verbatim)| BoundCase { plan, entry_case, verbatim }).boxed()
+            },
+            check: check_bound,
+        }),
+        Box::new(Sub {
             name: "vec-requirements-ops",
             quick: 20_000,
             thorough: 300_000,
@@ -190,6 +208,124 @@ pub fn check_ops(oc: &OpsCase, cc: &mut CaseCtx) -> CheckResult {
         cc.class_if(removed_after_add, "remove-after-add");
         cc.nontrivial(digest_of(&[format!("{:?}", oc.ops).as_bytes()]));
         cc.sample(json!({"ops": oc.ops.iter().map(|(o, s, p)| format!("{}:{}", ["add_always", "add_if", "add_prefix", "rm_always", "rm_if", "rm_prefix"][(*o % 6) as usize], spell_header_name(NAMES[pick_idx(*s, NAMES.len())], *p))).collect::<Vec<_>>()}));
+    }
+    Ok(())
+}
+
+#[derive(Clone, Debug, Serialize, Deserialize)]
+pub struct BoundCase {
+    pub plan: Plan,
+    /// letter-case pattern per SignedHeaders entry (0 = lower case as the specification wants it)
+    pub entry_case: Vec<u8>,
+    /// sign the way a verifier that looks list entries up verbatim would expect (no header line for a mis-cased
+    /// entry); otherwise the entry is matched case-insensitively
+    pub verbatim: bool,
+}
+
+/// Metamorphic: whatever an implementation makes of an irregular SignedHeaders list, IF it accepts the request then
+/// every header the service requires to be signed is covered by the signature -- editing its value (old signature
+/// kept) must lead to refusal.
+pub fn check_bound(bc: &BoundCase, cc: &mut CaseCtx) -> CheckResult {
+    use crate::model::crypto::{hex_lower, hmac_sha256, key_chain, sha256};
+    use crate::model::sign::{attach, PLACEHOLDER_SIG};
+    let p = &bc.plan;
+    let base = p.base();
+    let mut spec = p.spec.clone();
+    let mut respelled = false;
+    for (i, e) in spec.signed_headers.iter_mut().enumerate() {
+        let pat = bc.entry_case[i % bc.entry_case.len()];
+        if pat != 0 && e != "host" {
+            let n = spell_header_name(e, pat);
+            respelled |= n != *e;
+            *e = n;
+        }
+    }
+    spec.keep_order = true;
+    let mut list = spec.signed_headers.clone();
+    list.sort();
+    let Ok(scope) = crate::model::sign::default_scope(&p.cfg, &spec) else { return Ok(()) };
+    let credential = format!("{}/{}/{}/{}/{}", spec.access_key, scope.0, scope.1, scope.2, scope.3);
+    let probe = Case { req: attach(&base, &p.cfg, &spec, &credential, PLACEHOLDER_SIG), cfg: p.cfg.clone(), prov: p.provider() };
+    let a = analyze(&probe);
+    let (Some(path), Some(query), Some(t)) = (a.canonical_path.clone(), a.canonical_query.clone(), a.instant) else { return Ok(()) };
+    let mut creq: Vec<u8> = Vec::new();
+    creq.extend_from_slice(probe.req.method.as_bytes());
+    creq.push(b'\n');
+    creq.extend_from_slice(path.as_bytes());
+    creq.push(b'\n');
+    creq.extend_from_slice(query.as_bytes());
+    creq.push(b'\n');
+    for e in &list {
+        let vals: Vec<Vec<u8>> = probe
+            .req
+            .headers
+            .iter()
+            .filter(|(n, _)| if bc.verbatim { n.to_ascii_lowercase() == *e } else { n.eq_ignore_ascii_case(e) })
+            .map(|(_, v)| crate::model::canon::canonical_header_value(&v.0))
+            .collect();
+        if vals.is_empty() {
+            continue;
+        }
+        creq.extend_from_slice(e.as_bytes());
+        creq.push(b':');
+        creq.extend_from_slice(&vals.join(&b','));
+        creq.push(b'\n');
+    }
+    creq.push(b'\n');
+    creq.extend_from_slice(list.join(";").as_bytes());
+    creq.push(b'\n');
+    creq.extend_from_slice(hex_lower(&sha256(&probe.req.body.0)).as_bytes());
+    let sts = format!("AWS4-HMAC-SHA256\n{}\n{}/{}/{}/{}\n{}", t.compact(), scope.0, scope.1, scope.2, scope.3, hex_lower(&sha256(&creq)));
+    let key = key_chain(spec.secret.as_bytes(), &scope.0, &scope.1, &scope.2)[3];
+    let sig = hex_lower(&hmac_sha256(&key, sts.as_bytes()));
+    let case = Case { req: attach(&base, &p.cfg, &spec, &credential, &sig), cfg: p.cfg.clone(), prov: p.provider() };
+    let o = exec::run(&case);
+    check_total(&o)?;
+    cc.class_if(respelled, "mis-cased-list-entry");
+    cc.class(if bc.verbatim { "signed-for-verbatim-lookup" } else { "signed-for-case-insensitive-lookup" });
+    if !o.res.is_ok() {
+        cc.class("not-accepted");
+        return Ok(());
+    }
+    cc.class("accepted");
+    // which headers does the service require to be signed for this request?
+    let r = &p.cfg.reqs;
+    let mut required: BTreeSet<String> = BTreeSet::new();
+    for h in &r.always {
+        required.insert(h.to_lowercase());
+    }
+    for h in &r.if_in_request {
+        required.insert(h.to_lowercase());
+    }
+    for pf in &r.prefixes {
+        let pl = pf.to_lowercase();
+        for (n, _) in &case.req.headers {
+            let nl = n.to_ascii_lowercase();
+            if nl.starts_with(&pl) && nl != "authorization" {
+                required.insert(nl);
+            }
+        }
+    }
+    required.insert("host".into());
+    let mut checked = 0;
+    for h in &required {
+        let Some(i) = case.req.headers.iter().position(|(n, _)| n.eq_ignore_ascii_case(h)) else { continue };
+        let mut edited = case.clone();
+        edited.req.headers[i].1 .0.extend_from_slice(b"-edited");
+        let o2 = exec::run(&edited);
+        check_total(&o2)?;
+        checked += 1;
+        if o2.res.is_ok() {
+            return Err(Failure::new(
+                "required-header-not-bound",
+                format!("request accepted with SignedHeaders={:?}; the service requires '{}' to be signed, yet changing its value (same signature) is still accepted", spec.signed_headers, h),
+            ));
+        }
+    }
+    if checked > 0 {
+        cc.class("required-header-edit-refused");
+        cc.nontrivial(digest_of(&[&case.req.digest().to_le_bytes(), format!("{:?}", r).as_bytes()]));
+        cc.sample(json!({"requirements": r, "signed_list_as_sent": spec.signed_headers, "required_and_present": required.iter().collect::<Vec<_>>(), "edits_refused": checked}));
     }
     Ok(())
 }
